@@ -77,7 +77,9 @@ def key_menus(k, rich):
     if k == 0:
         return [()]
     if rich and k <= 2:
-        return list(itertools.permutations(('a', 0, 'K'), k))
+        # None as a key must not be taken for "no key": alone, and before/after a string key
+        extra = [(None,)] if k == 1 else [(None, 'a'), ('a', None)]
+        return list(itertools.permutations(('a', 0, 'K'), k)) + extra
     base = ('a', 0, 'K', 'b', 'c', 'd')
     if rich:
         return [base[:k], ('K',) + base[:2] + base[3:k], (0, 'K', 'a') + base[3:k]]
